@@ -55,4 +55,42 @@ theorem parseSubsec_none (c : UInt8) (hc : c ≠ 46) (rest : Bytes) :
     parseSubsec (c :: rest) = some (0, c :: rest) := by
   simp [parseSubsec, hc]
 
+
+theorem parse_canonical (Y m d H Mi S : Nat) (sep : UInt8) (tail offTxt : Bytes) (nanos : Nat) (off : Int)
+    (hY : Y < 10000) (hm : m < 100) (hd : d < 100) (hH : H < 100) (hMi : Mi < 100) (hS : S < 60)
+    (hfrac : parseSubsec tail = some (nanos, offTxt))
+    (hoff : parseOffset offTxt = some (off, [])) :
+    parseRfc3339 (pad4 Y ++ 45 :: (pad2 m ++ 45 :: (pad2 d ++ sep :: (pad2 H ++ 58 :: (pad2 Mi ++ 58 :: (pad2 S ++ tail)))))) =
+      if validFields Y m d H Mi S then some ⟨localSeconds Y m d H Mi S - off, nanos, off⟩ else none := by
+  unfold parseRfc3339
+  simp only [exactlyDigits_pad4 Y hY, exactlyDigits_pad2 m hm, exactlyDigits_pad2 d hd, exactlyDigits_pad2 H hH,
+    exactlyDigits_pad2 Mi hMi, exactlyDigits_pad2 S (by omega : S < 100), expectChar_cons, hfrac, hoff,
+    bind, Option.bind]
+  have h60 : (S == 60) = false := by simp; omega
+  simp only [h60, Bool.false_eq_true, if_false, Bool.false_and, List.isEmpty_nil, Bool.not_true]
+  cases validFields (↑Y) m d H Mi S <;> simp
+
+
+theorem parseOffset_Z : parseOffset [90] = some (0, []) := by decide
+
+/-- `+hh:mm` / `-hh:mm` with hh ≤ 23, mm ≤ 59 -/
+theorem parseOffset_hm (neg : Bool) (oh om : Nat) (hoh : oh ≤ 23) (hom : om ≤ 59) :
+    parseOffset ((if neg then 45 else 43) :: (pad2 oh ++ 58 :: pad2 om)) =
+      some ((if neg then -((oh * 3600 + om * 60 : Nat) : Int) else ((oh * 3600 + om * 60 : Nat) : Int)), []) := by
+  have h2 : exactlyDigits 2 (pad2 om) 0 = some (om, []) := by
+    have := exactlyDigits_pad2 om (by omega) []
+    simpa using this
+  have hoh' : ¬ oh > 23 := by omega
+  have hom' : ¬ om > 59 := by omega
+  cases neg
+  · show parseOffset (43 :: _) = _
+    unfold parseOffset
+    simp only [exactlyDigits_pad2 oh (by omega), expectChar_cons, h2, bind, Option.bind, hoh', hom']
+    simp
+  · show parseOffset (45 :: _) = _
+    unfold parseOffset
+    simp only [exactlyDigits_pad2 oh (by omega), expectChar_cons, h2, bind, Option.bind, hoh', hom']
+    simp
+
+
 end S3V.Dto
